@@ -155,7 +155,7 @@ def run_case(case, ctx, acc):
             file_check(ls_, real, cfg, case, "after close+reopen (step %d)" % len(ls_.log))
         if op[0] in ("remove", "remove_hit", "update", "update_hit", "drop") and ls_.flags & {"remove_partial", "update_changed"}:
             info["rewrites"] += 1
-        if op[0] in ("probe", "probe_hit") and os.path.getsize(real.path) > 8192:
+        if op[0] in ("probe", "probe_hit", "probe_twin") and os.path.getsize(real.path) > 8192:
             info["_early"] = True
         elif op[0] in ("insert", "insert_multiple") and info.get("_early"):
             info["early_then_insert"] = True
